@@ -121,8 +121,14 @@ def match_known(known, pid, kind, detail, case):
   for k in known.get('known', []):
     if k['property'] != pid:
       continue
-    if k.get('kind') == kind and all(s in json.dumps(C.jsonable([detail, case]), default=repr)
-                                     for s in k.get('must_contain', [])):
+    if k.get('kind') != kind:
+      continue
+    if 'classifier' in k:
+      from harness import findings  # pylint: disable=g-import-not-at-top
+      if getattr(findings, k['classifier'])(kind, detail, case):
+        return k
+      continue
+    if all(s in json.dumps(C.jsonable([detail, case]), default=repr) for s in k.get('must_contain', [])):
       return k
   return None
 
